@@ -2,13 +2,17 @@ package props
 
 import (
 	"crypto/sha256"
+	"encoding/binary"
 	"fmt"
 	"io"
 	"os"
+	"os/exec"
 	"path/filepath"
+	"strings"
 	"time"
 
 	"dsim/core"
+	"dsim/indep"
 	"dsim/simdisk"
 
 	diskfs "github.com/diskfs/go-diskfs"
@@ -65,6 +69,10 @@ func (c11) Gen(r *core.Rng, tier string, idx int) *core.Trace {
 	t.Cfg["layout"] = int64(r.PickW(60, 20, 20))         // 0 whole device, 1 gpt partition, 2 mbr partition
 	t.Cfg["sqcomp"] = int64(r.Intn(4))
 	t.Cfg["gptbad"] = int64(r.PickW(65, 35)) // gpt layout: the primary header fails its CRC, the table comes from the backup copy
+	// volumes as other implementations leave them: an empty FAT file that owns no cluster (what every other FAT
+	// writer makes of an empty file), an ext4 superblock whose free-block summary lags behind the group
+	// descriptors (what a volume looks like after an unclean shutdown) - legal, and tempting to "repair" on the way
+	t.Cfg["foreign"] = int64(r.PickW(65, 35))
 	n := 3 + r.Intn(25)
 	for i := 0; i < n; i++ {
 		if r.Chance(55) {
@@ -118,6 +126,18 @@ func (p c11) Exec(t *core.Trace) *core.Result {
 		return res
 	}
 	d := bi.D
+	if t.I("foreign") == 1 {
+		switch {
+		case strings.HasPrefix(kind, "fat"):
+			if c11ClusterlessEmpty(d, start, bi.Size, map[string]int{"fat12": 12, "fat16": 16, "fat32": 32}[kind]) {
+				res.Probe("foreign-clusterless-empty-file")
+			}
+		case kind == "ext4-mke2fs":
+			if c11StaleSummary(d, start, bi.Size) {
+				res.Probe("foreign-stale-free-count")
+			}
+		}
+	}
 	devSize := d.Size()
 	// partition table around the filesystem
 	if layout != 0 {
@@ -404,4 +424,70 @@ func (p c11) Exec(t *core.Trace) *core.Result {
 	}
 	res.Sample = fmt.Sprintf("%s layout=%d attach=%s | %s", kind, layout, attachName, t.Summary())
 	return res
+}
+
+// c11ClusterlessEmpty turns EMPTY.DAT into an empty file without a cluster (first cluster 0, its former cluster
+// free in both FAT copies), which is how every FAT writer but this library stores an empty file.
+func c11ClusterlessEmpty(d *simdisk.Disk, start, size int64, ft int) bool {
+	rep := indep.CheckFAT(d, start, size, ft)
+	if len(rep.Problems) > 0 || rep.FATBytes <= 0 {
+		return false
+	}
+	lim := size
+	if lim > 8<<20 {
+		lim = 8 << 20
+	}
+	buf := d.Peek(start, lim)
+	idx := int64(-1)
+	for off := int64(0); off+32 <= int64(len(buf)); off += 32 {
+		if string(buf[off:off+11]) == "EMPTY   DAT" && buf[off+11]&0x18 == 0 {
+			idx = off
+			break
+		}
+	}
+	if idx < 0 {
+		return false
+	}
+	cl := int64(binary.LittleEndian.Uint16(buf[idx+26:])) | int64(binary.LittleEndian.Uint16(buf[idx+20:]))<<16
+	if binary.LittleEndian.Uint32(buf[idx+28:]) != 0 || cl < 2 || cl > rep.Clusters+1 {
+		return false
+	}
+	d.Poke(start+idx+26, []byte{0, 0})
+	d.Poke(start+idx+20, []byte{0, 0})
+	for c := int64(0); c < 2; c++ {
+		base := start + rep.FATStart + c*rep.FATBytes
+		switch ft {
+		case 12:
+			o := base + cl*3/2
+			b := d.Peek(o, 2)
+			if cl&1 == 0 {
+				b[0], b[1] = 0, b[1]&0xf0
+			} else {
+				b[0], b[1] = b[0]&0x0f, 0
+			}
+			d.Poke(o, b)
+		case 16:
+			d.Poke(base+cl*2, []byte{0, 0})
+		default:
+			b := d.Peek(base+cl*4, 4)
+			d.Poke(base+cl*4, []byte{0, 0, 0, b[3] & 0xf0})
+		}
+	}
+	return true
+}
+
+// c11StaleSummary lowers the free-block count in the superblock with the reference tool (which keeps the
+// superblock checksum right): the group descriptors then say something else, as after an unclean shutdown.
+func c11StaleSummary(d *simdisk.Disk, start, size int64) bool {
+	img := filepath.Join(scratch(), fmt.Sprintf("c11-%d.img", os.Getpid()))
+	defer os.Remove(img)
+	if err := d.DumpTo(img, start, size); err != nil {
+		return false
+	}
+	cmd := exec.Command("/usr/sbin/debugfs", "-w", "-R", "ssv free_blocks_count 7", img)
+	cmd.Env = append(os.Environ(), "E2FSPROGS_FAKE_TIME=1700000000")
+	if out, err := cmd.CombinedOutput(); err != nil || strings.Contains(string(out), "rror") {
+		return false
+	}
+	return d.LoadFrom(img, start) == nil
 }
